@@ -183,7 +183,7 @@ example : ((TRun.run {} demoOps).returned.reverse.map (fun x => (x.1.1, x.2))) =
 /-! ## Machine level: the same clauses for the whole scheduler machine, in every reachable state
 
 `Reachable s` (`Sched/MachineHost.lean`): `s` is produced from the initial state by any list of host
-operations of the driver — compile/recompile a program of class `ProgOK`, host call with arguments,
+operations of the driver — compile/recompile a program of class `ProgOK` (every generator family), host call with arguments,
 `advance`, `execute`, `step`, `reset-director`, `reset`, reading the output — **without `save`/`load`**
 (not covered, see `MachineHost.lean`).  All statements are modulo running out of fuel (the machine's
 functions take fuel; the driver reports an exhausted run as `FUEL` and the correspondence treats it as a
@@ -234,7 +234,7 @@ theorem C06_machine_none_due_after_call {s : State} (h : Reachable s) (label : N
     clock. -/
 theorem C06_machine_clock_discipline {s : State} (h : Reachable s) :
     s.outOfFuel = true ∨ (s.scaled = s.lastClock ∧ s.timer.mtime = s.lastClock ∧ s.lastClock ≤ s.clock) :=
-  (reachable_hinv h).map (fun hi => ⟨hi.ck2, hi.ck3, hi.ck1⟩)
+  (reachable_hinv h).map (fun hi => ⟨hi.ck2, reachable_mtime h, hi.ck1⟩)
 
 /-- No function of the machine moves `scaledTime`, the clock or `m_time` (only the host's `Execute`
     does): the three agree throughout a host call / a frame, whatever runs nested inside. -/
